@@ -409,15 +409,15 @@ def dec_event(key, rdclass, rdtype, ft, b):
 def fault_set(n):
     """the descriptors of RdataCodec!FaultSet for an encoding of n octets (same declared set;
     Trace_RdataCodec asserts equality)."""
-    pos = list(range(1, n + 1)) if n <= 40 else [i for i in range(1, n + 1) if i <= 8 or i > n - 3]
+    pos = list(range(1, n + 1)) if n <= 32 else [i for i in range(1, n + 1) if i <= 8 or i > n - 3]
     out = [["none", 0, 0]]
     out += [["trunc", i - 1, 0] for i in pos]
     out += [["ext", x, 0] for x in (0, 1, 255)]
     out += [["bump", i, d] for i in pos for d in (1, 255)]
-    out += [["set", i, x] for i in pos for x in (0, 255, 192)]
+    out += [["set", i, x] for i in pos for x in (0, 192)]
     out += [["ptr", i, 0] for i in pos if i < n]
     out += [["ptr", i, len(PRE) + i - 1] for i in pos if i < n]
-    if 5 <= n <= 65:
+    if 5 <= n <= 32:
         out += [["ovl", i, len(PRE)] for i in range(2, n - 1)]
     return out
 
@@ -577,6 +577,16 @@ def _run_job(job):
         for b in job["bs"]:
             tr["ev"].append(dec_event(key, rdclass, rdtype, ["rand", 0, 0], b))
     return tr
+
+
+def aliasmode_probe():
+    """does the SVCB constructor accept priority 0 together with SvcParams?  (recorded as drift)"""
+    try:
+        cls = dns.rdata.get_rdata_class(1, 64)
+        cls(1, 64, 0, dns.name.root, {svcb.ParamKey.PORT: svcb.PortParam(443)})
+        return True
+    except Exception:  # noqa: BLE001
+        return False
 
 
 # ----------------------------------------------------------------------------- random octets
